@@ -7,8 +7,16 @@
     Functions without a theorem here are judged per generated input by certificates. *)
 From Coq Require Import Reals Lra List.
 From D3 Require Import Base.Ops Base.Vec Base.RVec Base.RVec2 Spec.Convex Spec.Prims Model.DistPrim
-  Proofs.DistBase Proofs.DistPoint Proofs.DistRect.
+  Proofs.DistBase Proofs.DistPoint Proofs.DistRect
+  Proofs.DistTriangle Proofs.DistRound Proofs.DistLine Proofs.DistPlane.
 Local Open Scope R_scope.
+(* [exists d c1 c2, f args = (d, c1, c2) /\ _]: name the components of the model's result *)
+Ltac ex3 := match goal with |- exists d c1 c2, ?e = _ /\ _ =>
+  let d := fresh "d" in let c1 := fresh "c" in let c2 := fresh "c" in
+  destruct e as [[d c1] c2]; exists d, c1, c2; split; [reflexivity|] end.
+Ltac ex3' := match goal with |- exists d c1 c2, ?e = _ =>
+  let d := fresh "d" in let c1 := fresh "c" in let c2 := fresh "c" in
+  destruct e as [[d c1] c2]; exists d, c1, c2; reflexivity end.
 
 Theorem C11_closest_on_is_optimal (S : set3) p d : closest_on S p d <-> optimal (point_set p) S d.
 Proof. exact (closest_on_optimal S p d). Qed.
@@ -62,3 +70,173 @@ Example C11_point_to_box_nonvacuous :
   is_rotation (rot (P (@ident R _) (V 0 0 0))) /\
   exists d cp, point_to_box (V 3 0 1) (P ident (V 0 0 0)) (V 2 2 2) = (d, cp).
 Proof. split; [exact rotation_ident|]. eexists; eexists; reflexivity. Qed.
+
+(** point_to_triangle: non-degenerate triangle *)
+Theorem C11_point_to_triangle (p a b c : V3R) d cp :
+  cross (vsub b a) (vsub c a) <> vzero ->
+  point_to_triangle p a b c = (d, cp) -> closest_on (triangle_set a b c) p d.
+Proof. exact (point_to_triangle_optimal p a b c d cp). Qed.
+Print Assumptions C11_point_to_triangle.
+Example C11_point_to_triangle_nonvacuous :
+  let a := V 0 0 0 in let b := V 1 0 0 in let c := V 0 1 0 in let p := V (1 / 4) (1 / 4) 1 in
+  cross (vsub b a) (vsub c a) <> vzero /\
+  exists d cp, point_to_triangle p a b c = (d, cp) /\
+    feasible (point_set p) (triangle_set a b c) d p cp /\ closest_on (triangle_set a b c) p d.
+Proof. exact point_to_triangle_nonvacuous. Qed.
+
+(** point_to_disk: unit normal, non-negative radius *)
+Theorem C11_point_to_disk (p c : V3R) (r : R) (n : V3R) d cp :
+  dot n n = 1 -> 0 <= r -> point_to_disk p c r n = (d, cp) -> closest_on (disk_set c r n) p d.
+Proof. exact (point_to_disk_optimal p c r n d cp). Qed.
+Print Assumptions C11_point_to_disk.
+Example C11_point_to_disk_nonvacuous :
+  exists p c r n d cp, dot n n = 1 /\ 0 <= r /\ point_to_disk p c r n = (d, cp) /\ p <> cp.
+Proof. exact point_to_disk_nonvacuous. Qed.
+
+(** point_to_circle (NOT convex: direct argument): unit normal, outside the epsilon band of the on-axis test *)
+Theorem C11_point_to_circle (p c : V3R) (r : R) (n : V3R) (eps : R) d cp :
+  dot n n = 1 -> 0 <= r -> 0 < eps -> circle_band_ok p c n eps ->
+  point_to_circle p c r n eps = (d, cp) -> closest_on (circle_set c r n) p d.
+Proof. exact (point_to_circle_optimal p c r n eps d cp). Qed.
+Print Assumptions C11_point_to_circle.
+Example C11_point_to_circle_nonvacuous :
+  exists p c r n eps d cp,
+    dot n n = 1 /\ 0 <= r /\ 0 < eps /\ circle_band_ok p c n eps /\ point_to_circle p c r n eps = (d, cp).
+Proof. exact point_to_circle_nonvacuous. Qed.
+
+Theorem C11_point_to_circle_in_band_refuted :
+  exists p c r n eps d cp,
+    dot n n = 1 /\ 0 <= r /\ 0 < eps /\ 0 < circle_sqr_len p c n < eps /\
+    point_to_circle p c r n eps = (d, cp) /\ ~ closest_on (circle_set c r n) p d.
+Proof. exact point_to_circle_band_optimal_refuted. Qed.
+Print Assumptions C11_point_to_circle_in_band_refuted.
+
+(** point_to_cylinder: rotation matrix, non-negative radius and length *)
+Theorem C11_point_to_cylinder (p : V3R) (T : Pose R) (r l : R) d cp :
+  is_rotation (rot T) -> 0 <= r -> 0 <= l -> point_to_cylinder p T r l = (d, cp) -> closest_on (cylinder_of T r l) p d.
+Proof. exact (point_to_cylinder_optimal p T r l d cp). Qed.
+Print Assumptions C11_point_to_cylinder.
+Example C11_point_to_cylinder_nonvacuous :
+  exists p T r l d cp,
+    is_rotation (rot T) /\ 0 <= r /\ 0 <= l /\ point_to_cylinder p T r l = (d, cp).
+Proof. exact point_to_cylinder_nonvacuous. Qed.
+
+(** line_to_line: unit directions, outside the band 0 < |det| < eps of the parallel test *)
+Theorem C11_line_to_line (lp1 ld1 lp2 ld2 : V3R) (eps : R) d c1 c2 :
+  dot ld1 ld1 = 1 -> dot ld2 ld2 = 1 -> 0 < eps ->
+  (1 - dot ld1 ld2 * dot ld1 ld2 = 0 \/ eps <= Rabs (1 - dot ld1 ld2 * dot ld1 ld2)) ->
+  line_to_line lp1 ld1 lp2 ld2 eps = (d, c1, c2) ->
+  optimal (line_set lp1 ld1) (line_set lp2 ld2) d.
+Proof. exact (line_to_line_optimal lp1 ld1 lp2 ld2 eps d c1 c2). Qed.
+Print Assumptions C11_line_to_line.
+Example C11_line_to_line_nonvacuous :
+  exists ld1 ld2 eps,
+    dot ld1 ld1 = 1 /\ dot ld2 ld2 = 1 /\ 0 < eps /\
+    (1 - dot ld1 ld2 * dot ld1 ld2 = 0 \/ eps <= Rabs (1 - dot ld1 ld2 * dot ld1 ld2)).
+Proof. exact line_to_line_optimal_nonvacuous. Qed.
+
+(** inside the band the parallel arm is taken for non-parallel lines: two INTERSECTING lines are reported at distance 5 *)
+Theorem C11_line_to_line_in_band_refuted :
+  exists lp1 ld1 lp2 ld2 eps d c1 c2,
+    dot ld1 ld1 = 1 /\ dot ld2 ld2 = 1 /\ 0 < eps /\
+    line_to_line lp1 ld1 lp2 ld2 eps = (d, c1, c2) /\
+    ~ optimal (line_set lp1 ld1) (line_set lp2 ld2) d.
+Proof. exact line_to_line_optimal_refuted_in_band. Qed.
+Print Assumptions C11_line_to_line_in_band_refuted.
+
+(** line_to_line_segment: unit direction, 0 < eps < 1, segment not degenerate in the model's sense (|e0-s0|^2 >= eps) *)
+Theorem C11_line_to_line_segment (lp ld s0 e0 : V3R) (eps : R) d c1 c2 :
+  dot ld ld = 1 -> 0 < eps -> eps < 1 -> eps <= dot (vsub e0 s0) (vsub e0 s0) ->
+  line_to_line_segment lp ld s0 e0 eps = (d, c1, c2) ->
+  optimal (line_set lp ld) (segment_set s0 e0) d.
+Proof. exact (line_to_line_segment_optimal lp ld s0 e0 eps d c1 c2). Qed.
+Print Assumptions C11_line_to_line_segment.
+Example C11_line_to_line_segment_nonvacuous :
+  exists ld s0 e0 eps,
+    dot ld ld = 1 /\ 0 < eps /\ eps < 1 /\ eps <= dot (vsub e0 s0) (vsub e0 s0).
+Proof. exact line_to_line_segment_optimal_nonvacuous. Qed.
+
+(** eps = 1 is refuted: a unit direction then takes the `e <= eps` (degenerate line) arm *)
+Theorem C11_line_to_line_segment_eps1_refuted :
+  exists lp ld s0 e0 eps d c1 c2,
+    dot ld ld = 1 /\ 0 < eps /\ eps <= 1 /\ eps <= dot (vsub e0 s0) (vsub e0 s0) /\
+    line_to_line_segment lp ld s0 e0 eps = (d, c1, c2) /\
+    ~ optimal (line_set lp ld) (segment_set s0 e0) d.
+Proof. exact line_to_line_segment_optimal_refuted. Qed.
+Print Assumptions C11_line_to_line_segment_eps1_refuted.
+
+(** line_segment_to_line_segment (Ericson's clamp-and-recompute; KKT on the unit square): each segment is either exactly a point or not degenerate in the model's sense *)
+Theorem C11_line_segment_to_line_segment (s1 e1 s2 e2 : V3R) (eps : R) d c1 c2 :
+  0 < eps ->
+  e1 = s1 \/ eps <= dot (vsub e1 s1) (vsub e1 s1) ->
+  e2 = s2 \/ eps < dot (vsub e2 s2) (vsub e2 s2) ->
+  line_segment_to_line_segment s1 e1 s2 e2 eps = (d, c1, c2) ->
+  optimal (segment_set s1 e1) (segment_set s2 e2) d.
+Proof. exact (line_segment_to_line_segment_optimal_deg s1 e1 s2 e2 eps d c1 c2). Qed.
+Print Assumptions C11_line_segment_to_line_segment.
+Example C11_line_segment_to_line_segment_nonvacuous :
+  exists s1 e1 s2 e2 eps,
+    0 < eps /\ eps <= dot (vsub e1 s1) (vsub e1 s1) /\ eps < dot (vsub e2 s2) (vsub e2 s2).
+Proof. exact line_segment_to_line_segment_optimal_nonvacuous. Qed.
+
+(** line_to_plane: unit normal, outside the band 0 < (ld.pn)^2 < eps *)
+Theorem C11_line_to_plane (lp ld pp pn : V3R) eps d c1 c2 :
+  dot pn pn = 1 -> 0 < eps ->
+  (dot ld pn = 0 \/ eps <= dot ld pn * dot ld pn) ->
+  line_to_plane lp ld pp pn eps = (d, c1, c2) ->
+  optimal (line_set lp ld) (plane_set pp pn) d.
+Proof. exact (line_to_plane_optimal lp ld pp pn eps d c1 c2). Qed.
+Print Assumptions C11_line_to_plane.
+Example C11_line_to_plane_nonvacuous :
+  exists d c1 c2, line_to_plane (V 0 0 1) (V 1 0 0) (V 0 0 0) (V 0 0 1) (/ 2) = (d, c1, c2) /\
+    dot (V 0 0 1 : V3R) (V 0 0 1) = 1 /\ dot (V 1 0 0 : V3R) (V 0 0 1) = 0.
+Proof. ex3. split; vsimp; ring. Qed.
+
+(** line_segment_to_plane: unit normal, outside the band of the parallel test (l = normalised direction . normal) *)
+Theorem C11_line_segment_to_plane (s e pp pn : V3R) eps d c1 c2 :
+  dot pn pn = 1 -> 0 < eps ->
+  (let l := dot (fst (convert_segment_to_line s e)) pn in l = 0 \/ eps <= l * l) ->
+  line_segment_to_plane s e pp pn eps = (d, c1, c2) ->
+  optimal (segment_set s e) (plane_set pp pn) d.
+Proof. exact (line_segment_to_plane_optimal s e pp pn eps d c1 c2). Qed.
+Print Assumptions C11_line_segment_to_plane.
+Example C11_line_segment_to_plane_nonvacuous :
+  exists d c1 c2, line_segment_to_plane (V 0 0 1) (V 1 0 1) (V 0 0 0) (V 0 0 1) (/ 2) = (d, c1, c2) /\ dot (V 0 0 1 : V3R) (V 0 0 1) = 1.
+Proof. ex3. vsimp; ring. Qed.
+
+(** plane_to_plane: unit normals, outside the band 0 < |n1 x n2| <= eps *)
+Theorem C11_plane_to_plane (p1 n1 p2 n2 : V3R) eps d c1 c2 :
+  dot n1 n1 = 1 -> dot n2 n2 = 1 -> 0 <= eps ->
+  (cross n1 n2 = vzero \/ eps < norm (cross n1 n2)) ->
+  plane_to_plane p1 n1 p2 n2 eps = (d, c1, c2) ->
+  optimal (plane_set p1 n1) (plane_set p2 n2) d.
+Proof. exact (plane_to_plane_optimal p1 n1 p2 n2 eps d c1 c2). Qed.
+Print Assumptions C11_plane_to_plane.
+Example C11_plane_to_plane_nonvacuous :
+  exists d c1 c2, plane_to_plane (V 0 0 0) (V 0 0 1) (V 0 0 2) (V 0 0 1) (/ 2) = (d, c1, c2) /\
+    cross (V 0 0 1 : V3R) (V 0 0 1) = vzero.
+Proof. ex3. veq. Qed.
+
+(** plane_to_triangle: PARTIAL, see C10_plane_to_triangle_partial *)
+Theorem C11_plane_to_triangle_partial (pp pn a b c : V3R) d c1 c2 arm :
+  dot pn pn = 1 -> plane_triangle_band_ok pp pn a b c ->
+  plane_to_triangle pp pn a b c = (d, c1, c2, arm) ->
+  optimal (plane_set pp pn) (triangle_set a b c) d.
+Proof. exact (plane_to_triangle_optimal_partial pp pn a b c d c1 c2 arm). Qed.
+Print Assumptions C11_plane_to_triangle_partial.
+Example C11_plane_to_triangle_partial_nonvacuous :
+  let pp : V3R := V 0 0 0 in let pn : V3R := V 0 0 1 in
+  let a : V3R := V 0 0 (-1) in let b : V3R := V 0 0 1 in let c : V3R := V 1 0 0 in
+  dot pn pn = 1 /\ plane_triangle_band_ok pp pn a b c /\
+  dot (vsub a pp) pn < 0 < dot (vsub b pp) pn /\
+  exists x, plane_to_triangle pp pn a b c = (0, x, x, 0%nat).
+Proof. exact plane_triangle_band_ok_nonvacuous. Qed.
+
+(** a triangle that CROSSES the plane at a shallow angle is reported at a positive distance *)
+Theorem C11_plane_to_triangle_refuted :
+  exists (pp pn a b c : V3R) (d : R) (c1 c2 : V3R) (arm : nat),
+    dot pn pn = 1 /\ plane_to_triangle pp pn a b c = (d, c1, c2, arm) /\
+    ~ optimal (plane_set pp pn) (triangle_set a b c) d.
+Proof. exact plane_to_triangle_optimal_refuted. Qed.
+Print Assumptions C11_plane_to_triangle_refuted.
+
